@@ -1,16 +1,23 @@
 import Proofs.DasStatement
+import Proofs.DasForeign
 /-!
-  C08 — attributes survive the DAS.  Model: `PydapModel/DasText.lean` (follows parsers/das.py *after* the
-  fix "Float32/Float64 attributes are converted with float()").
+  C08 — attributes survive the DAS.  Model: `PydapModel/DasText.lean` (follows parsers/das.py and
+  responses/das.py *after* the two fixes: `float()` under Float32/Float64; size-0 values skipped everywhere).
+  `PydapModel/DasForeign.lean` is the specification of a foreign-layout printer (not pydap code).
 
-  What is proved for ALL inputs (unbounded, by induction):
-    * value level and attribute-line level of the round trip (`C08_value_roundtrip`,
-      `C08_roundtrip_line_partial`; the unguarded statement is refuted by `C08_roundtrip_line_refuted`);
-    * the same for any declared type word (`C08_foreign_line`: other servers' `Float32`, `Url`, ...);
-    * the decision logic of `add_attributes` step by step (`C08_placement_*`).
-  What is NOT carried by a ∀-theorem: the recursion of `container` over nested `{ }` and the composition
-  of the walk over a whole variable tree; these are covered by the concrete `example`s below (kernel
-  evaluation of the very definitions) and by the differential correspondence run.
+  Proved for ALL inputs (unbounded; induction on characters, value lists, and mutual structural induction over
+  the nested `Item` / `FItem` / `Var` trees):
+    * whole text, on characters: `C08_parse_print` (pydap's own DAS of any dataset tree), `C08_foreign_parse`
+      (any tree of nodes in pydap's layout), `C08_foreign_layout` (any tree of nodes in a foreign layout:
+      keyword / type case, white space chosen per node, several attributes per line);
+    * whole dataset: `C08_placement_tree` (add_attributes over the whole parsed dict), `C08_roundtrip_partial`
+      (serve, parse, attach) with `C08_roundtrip_refuted` / `C08_roundtrip_collision_refuted` for the unguarded
+      statements, `C08_foreign` (foreign-layout text with nested containers, parsed and attached);
+    * value / attribute-line level and the single decisions of `add_attributes`
+      (`C08_value_roundtrip`, `C08_roundtrip_line_*`, `C08_foreign_line`, `C08_placement_flat/_nested/_keep/_none/_global`).
+  Example level only (kernel-evaluated `rfl` examples below + the differential run): placement of *flat-id*
+  containers (`s.a { … }`) over a whole tree (single step: `C08_placement_flat`), the keep-around rule over a whole
+  tree, error outcomes.
 -/
 namespace Pydap.C08
 open Pydap.Das
@@ -142,6 +149,27 @@ theorem C08_roundtrip_partial (ds : Dataset) (hok : DsOk ds) (hg : Guard ds) :
   rw [parse_print ds hok, denote_ds ds hg.1 hg.2.1 hg.2.2]
   simp only [attach_tree ds hg.1, expected]
 
+/-- **foreign layout, whole text on characters**: the keyword in any letter case, any white space (none where
+    the grammar allows it) before and after `{`, per node its own white space between type, name and values,
+    after commas and after `;` (so several attributes per line, or one over many lines), any type words:
+    `parse_das` returns the dict the nodes denote. -/
+theorem C08_foreign_layout (kw w0 w1 : Text) (its : List FItem) (trail : Text)
+    (hkw : lower kw = "attributes".toList) (h0 : Ws w0) (h1 : Ws w1) (hok : FItemsOk its) :
+    dasParse (ftext kw w0 w1 its trail) = .ok (denoteItems [] (eraseItems its)) :=
+  fparse kw w0 w1 its trail hkw h0 h1 hok
+
+/-- **foreign layout, parsed and attached**: a foreign text whose nested containers spell the dataset's
+    variables (it denotes `dsDict ds`: globals, then per variable its attributes and its children's containers)
+    attaches to exactly those variables; names matching no variable become global attributes,
+    NC_GLOBAL/DODS_EXTRA are merged. -/
+theorem C08_foreign (ds : Dataset) (kw w0 w1 : Text) (its : List FItem) (trail : Text)
+    (hkw : lower kw = "attributes".toList) (h0 : Ws w0) (h1 : Ws w1) (hok : FItemsOk its)
+    (hsame : denoteItems [] (eraseItems its) = dsDict ds) (hg : DsG ds) :
+    (dasParse (ftext kw w0 w1 its trail)).toOption.map (addAttributes ds.name ds.children)
+      = some (.ok (expected ds)) := by
+  rw [fparse kw w0 w1 its trail hkw h0 h1 hok, hsame]
+  simp [Except.toOption, attach_tree ds hg, expected]
+
 /-- **unguarded statement refuted (1)**: over the DAS-safe domain alone the round trip is false — a
     one-element list comes back as a scalar (finding C08.short_list). -/
 theorem C08_roundtrip_refuted : ¬ (∀ ds : Dataset, DsOk ds → roundTrip ds = some (.ok (expected ds))) := by
@@ -174,6 +202,24 @@ example : DsOk exSmall ∧ Guard exSmall := ⟨exSmall_ok, exSmall_guard⟩
 example : DsOk wShort ∧ DsOk wCollide := ⟨wShort_ok, wCollide_ok⟩
 example : ItemsOk [.cont "s.a".toList [.attr "Float32".toList "x".toList [.num "1.0".toList true]]] :=
   ⟨⟨⟨by decide, by decide⟩, ⟨⟨by decide, by decide⟩, ⟨by decide, by decide⟩, by intro x hx; simp at hx; subst hx; exact ⟨by decide, by decide, rfl⟩⟩, trivial⟩, trivial⟩
+
+-- foreign layout: `ATTRIBUTES{a {URL u "v";float32\tx\n1.0,2.5;}}` satisfies the hypotheses and denotes the dict of
+-- a dataset with one Base variable
+example : lower "ATTRIBUTES".toList = "attributes".toList := by decide
+example : Ws [] ∧ Ws "\n\t ".toList ∧ Gap "\t".toList := ⟨by unfold Ws; decide, by unfold Ws; decide, by decide, by unfold Ws; decide⟩
+example : FItemsOk exF := by
+  refine ⟨⟨⟨by decide, by decide⟩, ⟨⟨⟨by decide, by decide⟩, ⟨by decide, by decide⟩, ?_, ⟨by decide, by unfold Ws; decide⟩,
+    ⟨by decide, by unfold Ws; decide⟩, by unfold Ws; decide, by unfold Ws; decide⟩,
+    ⟨⟨by decide, by decide⟩, ⟨by decide, by decide⟩, ?_, ⟨by decide, by unfold Ws; decide⟩,
+    ⟨by decide, by unfold Ws; decide⟩, by unfold Ws; decide, by unfold Ws; decide⟩, trivial⟩,
+    ⟨by decide, by unfold Ws; decide⟩, by unfold Ws; decide, by unfold Ws; decide⟩, trivial⟩
+  · intro x hx; simp at hx; subst hx; exact ⟨by unfold SafeStr; decide, rfl⟩
+  · intro x hx; simp at hx; rcases hx with rfl | rfl <;> exact ⟨by decide, by decide, rfl⟩
+example : denoteItems [] (eraseItems exF)
+    = dsDict ⟨"d".toList, [], [Var.mk .base "a".toList
+        [("x".toList, .list [.num "1.0".toList true, .num "2.5".toList true]), ("u".toList, .sc (.str "v".toList))] []]⟩ := by
+  rfl
+example : ftext "ATTRIBUTES".toList [] [] exF [] = "ATTRIBUTES{a {URL u \"v\";float32\tx\n1.0,2.5;}}".toList := by rfl
 
 /-! ### non-vacuity: the hypotheses have inhabitants, the guards are the exact ones -/
 
